@@ -907,6 +907,16 @@ class _RangeComp(ast.NodeTransformer):
         if g.ifs or g.is_async or not isinstance(g.target, ast.Name):
             return node
         it = g.iter
+        if isinstance(it, (ast.Tuple, ast.List)) and 0 < len(it.elts) <= 8:
+            # [f(c) for c in (A, B, C)] -> [f(A), f(B), f(C)] for plain names / attribute chains / constants (reading them again
+            # in each element is what the comprehension does too)
+            simple = lambda e: isinstance(e, (ast.Constant, ast.Name)) or (isinstance(e, ast.Attribute) and simple(e.value))
+            if all(simple(e) for e in it.elts) and not any(isinstance(n, ast.Name) and n.id == g.target.id and isinstance(n.ctx, ast.Store) for n in ast.walk(node.elt)) \
+                    and not any(isinstance(n, (ast.Lambda, ast.ListComp, ast.GeneratorExp, ast.SetComp, ast.DictComp)) for n in ast.walk(node.elt)):
+                elts = [_Subst({g.target.id: e}, {}).visit(copy.deepcopy(node.elt)) for e in it.elts]
+                self.count += 1
+                return ast.copy_location(ast.List(elts=elts, ctx=ast.Load()), node)
+            return node
         if not (isinstance(it, ast.Call) and isinstance(it.func, ast.Name) and it.func.id == "range" and len(it.args) in (1, 2) and not it.keywords
                 and all(isinstance(a, ast.Constant) and isinstance(a.value, int) and not isinstance(a.value, bool) for a in it.args)):
             return node
@@ -918,6 +928,131 @@ class _RangeComp(ast.NodeTransformer):
         elts = [_Subst({g.target.id: ast.Constant(value=k)}, {}).visit(copy.deepcopy(node.elt)) for k in range(lo, hi)]
         self.count += 1
         return ast.copy_location(ast.List(elts=elts, ctx=ast.Load()), node)
+
+
+def scalar_replace_small_lists(tree):
+    """L = [e0, e1, e2]; for i, x in enumerate(L): ... L[i] = v ...; a, b, c = L
+       ->  L__0 = e0; L__1 = e1; L__2 = e2; (the loop body once per element, i := k, x bound to L__k, L[i] = v as L__k = v);
+           a, b, c = (L__0, L__1, L__2)
+    Scalar replacement of a fixed-size list that never escapes: every mention of L is the display binding it, the iterable of an
+    enumerate loop over it, a subscript by that loop's index inside the loop, a constant subscript, or an unpacking of the same
+    length.  Undoes `three repeated blocks -> a loop over a list of the three values`."""
+    count = 0
+    funcs, _ = function_table(tree)
+    for q, fn in funcs.items():
+        for owner in ast.walk(fn):
+            for field in ("body", "orelse", "finalbody"):
+                block = getattr(owner, field, None)
+                if not isinstance(block, list):
+                    continue
+                i = 0
+                while i < len(block):
+                    st = block[i]
+                    i += 1
+                    if not (isinstance(st, ast.Assign) and len(st.targets) == 1 and isinstance(st.targets[0], ast.Name) and isinstance(st.value, ast.List) and 1 <= len(st.value.elts) <= 8):
+                        continue
+                    L = st.targets[0].id
+                    n = len(st.value.elts)
+                    in_block = {id(m) for b in block for m in ast.walk(b)}
+                    every = [m for m in ast.walk(fn) if isinstance(m, ast.Name) and m.id == L and m is not st.targets[0]]
+                    mentions = [m for m in every if id(m) in in_block]
+                    # the same name may be used the same way in a sibling branch: those mentions belong to that branch's own
+                    # display binding (each is rewritten when its turn comes)
+                    other_defs = [d for d in ast.walk(fn) if isinstance(d, ast.Assign) and d is not st and len(d.targets) == 1 and isinstance(d.targets[0], ast.Name)
+                                  and d.targets[0].id == L and isinstance(d.value, ast.List) and id(d) not in in_block]
+                    outside = [m for m in every if id(m) not in in_block and not any(m is d.targets[0] for d in other_defs)]
+                    if any(not any(d.lineno <= m.lineno for d in other_defs) for m in outside):
+                        continue
+                    stores = [m for m in mentions if isinstance(m.ctx, (ast.Store, ast.Del))]
+                    if stores or not mentions:
+                        continue
+                    # classify every mention by its parent
+                    parents = {}
+                    for p_ in ast.walk(fn):
+                        for c_ in ast.iter_child_nodes(p_):
+                            parents[id(c_)] = p_
+                    loops, unpacks, consts, in_loop = [], [], [], []
+                    ok = True
+                    for m in mentions:
+                        p_ = parents.get(id(m))
+                        if isinstance(p_, ast.Call) and isinstance(p_.func, ast.Name) and p_.func.id == "enumerate" and len(p_.args) == 1 and p_.args[0] is m:
+                            lp = parents.get(id(p_))
+                            if isinstance(lp, ast.For) and lp.iter is p_ and not lp.orelse and isinstance(lp.target, ast.Tuple) and len(lp.target.elts) == 2 \
+                                    and all(isinstance(e, ast.Name) for e in lp.target.elts) and any(lp is b for b in block):
+                                loops.append(lp)
+                                continue
+                            ok = False
+                        elif isinstance(p_, ast.Subscript) and p_.value is m:
+                            if isinstance(p_.slice, ast.Constant) and isinstance(p_.slice.value, int) and -n <= p_.slice.value < n:
+                                consts.append(p_)
+                            elif isinstance(p_.slice, ast.Name):
+                                in_loop.append(p_)
+                            else:
+                                ok = False
+                        elif isinstance(p_, ast.Assign) and p_.value is m and len(p_.targets) == 1 and isinstance(p_.targets[0], (ast.Tuple, ast.List)) and len(p_.targets[0].elts) == n:
+                            unpacks.append(p_)
+                        else:
+                            ok = False
+                    if not ok or len(loops) > 1:
+                        continue
+                    if in_loop and not loops:
+                        continue
+                    if loops:
+                        lp = loops[0]
+                        iv, xv = lp.target.elts[0].id, lp.target.elts[1].id
+                        inside = {id(x) for x in ast.walk(lp)}
+                        if any(id(s_) not in inside or s_.slice.id != iv for s_ in in_loop):
+                            continue
+                        if any(isinstance(x, (ast.Break, ast.Continue, ast.Return, ast.FunctionDef, ast.Lambda)) for b in lp.body for x in ast.walk(b)):
+                            continue
+                        if any(isinstance(x, ast.Name) and x.id == iv and isinstance(x.ctx, ast.Store) for b in lp.body for x in ast.walk(b)):
+                            continue
+                    name = lambda k: "%s__%d" % (L, k % n)
+                    # rewrite
+                    new_block = []
+                    for b in block:
+                        if b is st:
+                            for k, e in enumerate(st.value.elts):
+                                new_block.append(ast.copy_location(ast.Assign(targets=[ast.Name(id=name(k), ctx=ast.Store())], value=e, lineno=st.lineno), st))
+                        elif loops and b is loops[0]:
+                            lp = loops[0]
+                            for k in range(n):
+                                new_block.append(ast.copy_location(ast.Assign(targets=[ast.Name(id=xv, ctx=ast.Store())], value=ast.Name(id=name(k), ctx=ast.Load()), lineno=lp.lineno), lp))
+                                for body_st in lp.body:
+                                    cp = copy.deepcopy(body_st)
+
+                                    class R(ast.NodeTransformer):
+                                        def visit_Subscript(self, nd):
+                                            if isinstance(nd.value, ast.Name) and nd.value.id == L and isinstance(nd.slice, ast.Name) and nd.slice.id == iv:
+                                                return ast.copy_location(ast.Name(id=name(k), ctx=nd.ctx), nd)
+                                            return self.generic_visit(nd)
+
+                                        def visit_Name(self, nd):
+                                            if nd.id == iv and isinstance(nd.ctx, ast.Load):
+                                                return ast.copy_location(ast.Constant(value=k), nd)
+                                            return nd
+
+                                    new_block.append(R().visit(cp))
+                        else:
+                            new_block.append(b)
+                    block[:] = new_block
+                    for u in unpacks:
+                        u.value = ast.Tuple(elts=[ast.Name(id=name(k), ctx=ast.Load()) for k in range(n)], ctx=ast.Load())
+                    for c_ in consts:
+                        par = parents.get(id(c_))
+                        repl = ast.Name(id=name(c_.slice.value), ctx=c_.ctx)
+                        for fld, val in ast.iter_fields(par):
+                            if val is c_:
+                                setattr(par, fld, repl)
+                            elif isinstance(val, list):
+                                for kk, x in enumerate(val):
+                                    if x is c_:
+                                        val[kk] = repl
+                    count += 1
+                    i = 0  # the block changed: start over
+    if count:
+        ast.fix_missing_locations(tree)
+    return count
 
 
 class _NotFold(ast.NodeTransformer):
@@ -1230,6 +1365,7 @@ def normalise(tree):
                          and isinstance(n.value, ast.Constant) and isinstance(n.value.value, str)}
     nf.visit(tree)
     idx = index_loops_to_iteration(tree)
+    sroa = scalar_replace_small_lists(tree)
     rc = _RangeComp()
     rc.visit(tree)
     ast.fix_missing_locations(tree)
@@ -1239,7 +1375,7 @@ def normalise(tree):
     aliases = propagate_new_aliases(tree, pinned_table())
     comps = append_loops_to_comprehensions(tree)
     temps = inline_new_temporaries(tree, pinned_table())
-    return tree, {"inlined": inl.inlined, "kept": inl.kept, "removed": getattr(inl, "removed", []), "unrolled": n1 + n2, "getattr_folded": af.count, "negations_folded": nf.count, "index_loops": idx, "range_comprehensions": rc.count, "append_loops": comps, "aliases_propagated": aliases, "temporaries_inlined": temps,
+    return tree, {"inlined": inl.inlined, "kept": inl.kept, "removed": getattr(inl, "removed", []), "unrolled": n1 + n2, "getattr_folded": af.count, "negations_folded": nf.count, "index_loops": idx, "small_lists_scalarised": sroa, "range_comprehensions": rc.count, "append_loops": comps, "aliases_propagated": aliases, "temporaries_inlined": temps,
                   "locals_renamed_back": ["%s: %s -> %s (%.2f)" % r for r in renamed]}
 
 
